@@ -11,6 +11,7 @@ import (
 	"golang.org/x/tools/go/ssa"
 
 	"verif/internal/an"
+	"verif/internal/pipeline"
 )
 
 func init() {
@@ -201,7 +202,7 @@ func runC08(c *Ctx) {
 	}
 
 	// ---------------------------------------------------------------------------------------------
-	c.R.Rule("float-guard", "MarshalFloatContext formats the float only on the edge where math.IsInf and math.IsNaN are both false, and the other edge returns an error", 1)
+	c.R.Rule("float-guard", "MarshalFloatContext formats the float only on the edge where math.IsInf and math.IsNaN are both false, and the other edge returns an error; no other runtime function hands a float to the unguarded legacy formatter MarshalFloat (or to strconv.FormatFloat inside a Marshal* function) without that test", 1)
 	if fn := c.fn(pkgGraphql, "MarshalFloatContext"); fn != nil {
 		done := false
 		for _, cl := range an.WithClosures(fn) {
@@ -228,6 +229,52 @@ func runC08(c *Ctx) {
 		}
 		if !done {
 			c.R.Bad("MarshalFloatContext/format", c.pos(fn.Pos()), "no formatting call found")
+		}
+	}
+
+	// the unguarded legacy formatter graphql.MarshalFloat ("%g", writes NaN/+Inf/-Inf verbatim) may be used by gqlgen's own
+	// marshalers only on an edge where the value is known to be finite
+	finiteGuard := func(call ssa.Instruction, v ssa.Value) bool {
+		inf, nan := false, false
+		for _, f := range an.Facts(call) {
+			if f.Op != token.ILLEGAL || !f.Neg {
+				continue
+			}
+			if cc, ok := f.X.(*ssa.Call); ok && len(cc.Call.Args) > 0 && an.SameVar(cc.Call.Args[0], v) {
+				switch an.CalleeOf(cc).FullName() {
+				case "math.IsInf":
+					inf = true
+				case "math.IsNaN":
+					nan = true
+				}
+			}
+		}
+		return inf && nan
+	}
+	rawFloat := c.W.Func(pkgGraphql, "MarshalFloat")
+	for _, fn := range c.moduleFuncs(isRuntimePkg) {
+		if topFn(fn) == rawFloat {
+			continue
+		}
+		for _, call := range an.CallsIn(fn, func(_ ssa.CallInstruction, ci an.CalleeInfo) bool { return rawFloat != nil && ci.Static == rawFloat }) {
+			v := call.Common().Args[0]
+			c.R.Check(finiteGuard(call, v), shortFn(topFn(fn))+"→MarshalFloat", c.ipos(call), "guarded by !IsInf && !IsNaN",
+				"a float reaches the unguarded formatter graphql.MarshalFloat without a finiteness test: NaN and ±Inf are written as `NaN` / `+Inf`, which is not JSON, and no error is reported")
+		}
+		// raw formatting of a float64 inside package graphql's marshalers
+		if pipeline.FuncPkgPath(fn) != pkgGraphql || !strings.HasPrefix(strings.ToLower(topFn(fn).Name()), "marshal") || topFn(fn).Name() == "MarshalFloatContext" {
+			continue
+		}
+		for _, call := range an.CallsIn(fn, func(_ ssa.CallInstruction, ci an.CalleeInfo) bool {
+			n := ci.FullName()
+			return n == "strconv.FormatFloat" || n == "strconv.AppendFloat"
+		}) {
+			idx := 0
+			if an.CalleeOf(call).FullName() == "strconv.AppendFloat" {
+				idx = 1
+			}
+			v := call.Common().Args[idx]
+			c.R.Check(finiteGuard(call, v), shortFn(topFn(fn))+"→FormatFloat", c.ipos(call), "guarded by !IsInf && !IsNaN", "a float is formatted for output without a finiteness test: NaN and ±Inf are not JSON")
 		}
 	}
 
